@@ -174,6 +174,26 @@ Definition antitone_code (a b : binput) (oa ob : list Z) : Z :=
        | _, _ => 0
        end.
 
+(* lowering a reclaim threshold percentage raises the safety margin: clause 6 *)
+Definition with_reclaim (b : binput) (cr mr : Z) : binput :=
+  let s := b_s b in
+  mkB (mkStrategy (s_cpu_policy s) (s_mem_policy s) cr mr (s_cpu_thr s) (s_mem_thr s) (s_degrade s))
+      (b_age b) (b_cap_cpu b) (b_cap_mem b) (b_alloc_cpu b) (b_alloc_mem b)
+      (b_anno b) (b_anno_cpu b) (b_anno_mem b) (b_anno_rcpus b) (b_sys_cpu b) (b_sys_mem b)
+      (b_zones b) (b_apps b) (b_pods b) (b_dang b).
+Definition reclaim_leb (a b : binput) : bool :=
+  let a' := with_reclaim a (s_cpu_reclaim (b_s b)) (s_mem_reclaim (b_s b)) in
+  input_leb a' b && input_leb b a'
+  && (s_cpu_reclaim (b_s b) <=? s_cpu_reclaim (b_s a)) && (s_cpu_reclaim (b_s a) <=? 100)
+  && (s_mem_reclaim (b_s b) <=? s_mem_reclaim (b_s a)) && (s_mem_reclaim (b_s a) <=? 100).
+Definition reclaim_code (a b : binput) (oa ob : list Z) : Z :=
+  if negb (reclaim_leb a b) then 0
+  else match oa, ob with
+       | 0 :: _ :: _ :: ca :: ma :: _, 0 :: _ :: _ :: cb :: mb :: _ =>
+           if (cb <=? ca) && (mb <=? ma) then 0 else 6
+       | _, _ => 0
+       end.
+
 (* well-formed inputs: what the Go types and the strategy validation guarantee *)
 Definition pv_nonneg (p : pv) : bool := (0 <=? v_req p) && (0 <=? v_used p) && (0 <=? v_dang p).
 Definition strategy_valid (s : strategy) : bool :=
